@@ -29,6 +29,33 @@ use crate::{
 
 use super::json_tokenizer::{JsonTokenizer, JsonValue};
 
+/// Arrays and objects nested deeper than this are rejected (serde_json, used by
+/// the default loader, applies the same limit); the recursive descent would
+/// otherwise overflow the stack on a hostile document.
+const MAX_NESTING_DEPTH: usize = 128;
+
+fn bad_json(what: &str) -> StoryError {
+    StoryError::BadJson(format!("Malformed ink JSON: {what}"))
+}
+
+fn as_str<'a>(value: &'a JsonValue, what: &str) -> Result<&'a str, StoryError> {
+    value
+        .as_str()
+        .ok_or_else(|| bad_json(&format!("{what} must be a string")))
+}
+
+fn as_integer(value: &JsonValue, what: &str) -> Result<i32, StoryError> {
+    value
+        .as_integer()
+        .ok_or_else(|| bad_json(&format!("{what} must be a number")))
+}
+
+fn read_integer(tok: &mut JsonTokenizer, what: &str) -> Result<i32, StoryError> {
+    tok.read_number()?
+        .as_integer()
+        .ok_or_else(|| bad_json(&format!("{what} must be a number")))
+}
+
 pub fn load_from_string(
     s: &str,
 ) -> Result<(i32, Rc<Container>, Rc<ListDefinitionsOrigin>), StoryError> {
@@ -50,7 +77,7 @@ fn parse(
         ));
     }
 
-    let version: i32 = tok.read_number().unwrap().as_integer().unwrap();
+    let version: i32 = read_integer(tok, "ink version number")?;
 
     if version > INK_VERSION_CURRENT {
         return Err(StoryError::BadJson(
@@ -74,7 +101,7 @@ fn parse(
     }
 
     let root_value = tok.read_value()?;
-    let main_content_container = match jtoken_to_runtime_object(tok, root_value, None)? {
+    let main_content_container = match jtoken_to_runtime_object(tok, root_value, None, 0)? {
         ArrayElement::RTObject(rt_obj) => rt_obj,
         _ => {
             return Err(StoryError::BadJson(
@@ -123,7 +150,12 @@ fn jtoken_to_runtime_object(
     tok: &mut JsonTokenizer,
     value: JsonValue,
     name: Option<String>,
+    depth: usize,
 ) -> Result<ArrayElement, StoryError> {
+    if matches!(value, JsonValue::Array | JsonValue::Object) && depth >= MAX_NESTING_DEPTH {
+        return Err(bad_json("nested too deeply"));
+    }
+
     match value {
         JsonValue::Null => Ok(ArrayElement::NullElement),
         JsonValue::Boolean(value) => Ok(ArrayElement::RTObject(Rc::new(Value::new::<bool>(value)))),
@@ -140,12 +172,12 @@ fn jtoken_to_runtime_object(
             let str = value.as_str();
 
             // String value
-            let first_char = str.chars().next().unwrap();
-            if first_char == '^' {
+            let first_char = str.chars().next();
+            if first_char == Some('^') {
                 return Ok(ArrayElement::RTObject(Rc::new(Value::new::<&str>(
                     &str[1..],
                 ))));
-            } else if first_char == '\n' && str.len() == 1 {
+            } else if first_char == Some('\n') && str.len() == 1 {
                 return Ok(ArrayElement::RTObject(Rc::new(Value::new::<&str>("\n"))));
             }
 
@@ -180,7 +212,11 @@ fn jtoken_to_runtime_object(
                 str
             )))
         }
-        JsonValue::Array => Ok(ArrayElement::RTObject(jarray_to_container(tok, name)?)),
+        JsonValue::Array => Ok(ArrayElement::RTObject(jarray_to_container(
+            tok,
+            name,
+            depth + 1,
+        )?)),
         JsonValue::Object => {
             let prop = tok.read_obj_key()?;
             let prop_value = tok.read_value()?;
@@ -195,13 +231,13 @@ fn jtoken_to_runtime_object(
 
             // // VariablePointerValue
             if prop == "^var" {
-                let variable_name = prop_value.as_str().unwrap();
+                let variable_name = as_str(&prop_value, "variable pointer name")?;
                 let mut contex_index = -1;
 
                 if tok.peek()? == ',' {
                     tok.expect(',')?;
                     tok.expect_obj_key("ci")?;
-                    contex_index = tok.read_number().unwrap().as_integer().unwrap();
+                    contex_index = read_integer(tok, "variable pointer context index")?;
                 }
 
                 let var_ptr = Rc::new(Value::new_variable_pointer(variable_name, contex_index));
@@ -233,7 +269,7 @@ fn jtoken_to_runtime_object(
             }
 
             if is_divert {
-                let target = prop_value.as_str().unwrap().to_string();
+                let target = as_str(&prop_value, "divert target")?.to_string();
 
                 let mut var_divert_name: Option<String> = None;
                 let mut target_path: Option<String> = None;
@@ -252,7 +288,7 @@ fn jtoken_to_runtime_object(
                     } else if prop == "c" {
                         conditional = true;
                     } else if prop == "exArgs" {
-                        external_args = prop_value.as_integer().unwrap() as usize;
+                        external_args = as_integer(&prop_value, "exArgs")? as usize;
                     }
                 }
 
@@ -275,12 +311,12 @@ fn jtoken_to_runtime_object(
             // Choice
             if prop == "*" {
                 let mut flags = 0;
-                let path_string_on_choice = prop_value.as_str().unwrap();
+                let path_string_on_choice = as_str(&prop_value, "choice point path")?;
 
                 if tok.peek()? == ',' {
                     tok.expect(',')?;
                     tok.expect_obj_key("flg")?;
-                    flags = tok.read_number().unwrap().as_integer().unwrap();
+                    flags = read_integer(tok, "choice point flags")?;
                 }
 
                 tok.expect('}')?;
@@ -294,14 +330,14 @@ fn jtoken_to_runtime_object(
             if prop == "VAR?" {
                 tok.expect('}')?;
                 return Ok(ArrayElement::RTObject(Rc::new(VariableReference::new(
-                    prop_value.as_str().unwrap(),
+                    as_str(&prop_value, "variable reference name")?,
                 ))));
             }
 
             if prop == "CNT?" {
                 tok.expect('}')?;
                 return Ok(ArrayElement::RTObject(Rc::new(
-                    VariableReference::from_path_for_count(prop_value.as_str().unwrap()),
+                    VariableReference::from_path_for_count(as_str(&prop_value, "read count path")?),
                 )));
             }
 
@@ -318,7 +354,7 @@ fn jtoken_to_runtime_object(
             }
 
             if is_var_ass {
-                let var_name = prop_value.as_str().unwrap();
+                let var_name = as_str(&prop_value, "variable assignment name")?;
                 let mut is_new_decl = true;
 
                 if tok.peek()? == ',' {
@@ -340,9 +376,10 @@ fn jtoken_to_runtime_object(
             // // Legacy Tag
             if prop == "#" {
                 tok.expect('}')?;
-                return Ok(ArrayElement::RTObject(Rc::new(Tag::new(
-                    prop_value.as_str().unwrap(),
-                ))));
+                return Ok(ArrayElement::RTObject(Rc::new(Tag::new(as_str(
+                    &prop_value,
+                    "tag text",
+                )?))));
             }
 
             // List value
@@ -385,8 +422,10 @@ fn jtoken_to_runtime_object(
 
             // Used when serialising save state only
             if prop == "originalChoicePath" {
-                todo!("originalChoicePath");
-                // return jobject_to_choice(obj); // TODO
+                // TODO: jobject_to_choice(obj)
+                return Err(bad_json(
+                    "saved choices are not supported by the streaming story loader",
+                ));
             }
 
             // Last Element
@@ -399,11 +438,12 @@ fn jtoken_to_runtime_object(
 
             loop {
                 if p == "#f" {
-                    flags = pv.as_integer().unwrap();
+                    flags = as_integer(&pv, "container flags")?;
                 } else if p == "#n" {
-                    name = Some(pv.as_str().unwrap().to_string());
+                    name = Some(as_str(&pv, "container name")?.to_string());
                 } else {
-                    let named_content_item = jtoken_to_runtime_object(tok, pv, Some(p.clone()))?;
+                    let named_content_item =
+                        jtoken_to_runtime_object(tok, pv, Some(p.clone()), depth + 1)?;
 
                     let named_content_item = match named_content_item {
                         ArrayElement::RTObject(rt_obj) => rt_obj,
@@ -417,7 +457,7 @@ fn jtoken_to_runtime_object(
                     let named_sub_container = named_content_item
                         .into_any()
                         .downcast::<Container>()
-                        .unwrap();
+                        .map_err(|_| bad_json("named content must be a container"))?;
 
                     named_only_content.insert(p, named_sub_container);
                 }
@@ -447,7 +487,7 @@ fn parse_list(tok: &mut JsonTokenizer) -> Result<HashMap<String, i32>, StoryErro
 
     while tok.peek()? != '}' {
         let key = tok.read_obj_key()?;
-        let value = tok.read_number().unwrap().as_integer().unwrap();
+        let value = read_integer(tok, "list item value")?;
         list_content.insert(key, value);
 
         if tok.peek()? != '}' {
@@ -463,8 +503,9 @@ fn parse_list(tok: &mut JsonTokenizer) -> Result<HashMap<String, i32>, StoryErro
 fn jarray_to_container(
     tok: &mut JsonTokenizer,
     name: Option<String>,
+    depth: usize,
 ) -> Result<Rc<dyn RTObject>, StoryError> {
-    let (content, named) = jarray_to_runtime_obj_list(tok)?;
+    let (content, named) = jarray_to_runtime_obj_list(tok, depth)?;
 
     // Final object in the array is always a combination of
     //  - named content
@@ -490,13 +531,13 @@ fn jarray_to_container(
     Ok(container)
 }
 
-fn jarray_to_runtime_obj_list(tok: &mut JsonTokenizer) -> RuntimeObjectListResult {
+fn jarray_to_runtime_obj_list(tok: &mut JsonTokenizer, depth: usize) -> RuntimeObjectListResult {
     let mut list: RuntimeObjectList = Vec::new();
     let mut last_element: Option<ArrayElement> = None;
 
     while tok.peek()? != ']' {
         let val = tok.read_value()?;
-        let runtime_obj = jtoken_to_runtime_object(tok, val, None)?;
+        let runtime_obj = jtoken_to_runtime_object(tok, val, None, depth)?;
 
         match runtime_obj {
             ArrayElement::LastElement(flags, name, named_only_content) => {
